@@ -54,8 +54,9 @@ structure Params where
   numFrac : Nat
 deriving Repr, DecidableEq
 
-/-- decimal width estimate `(n·3322 + estimateBias) / 1000` (see `scan_base`) -/
-def estimateBias : Nat := 678
+/-- decimal width estimate `(n·3322 + estimateBias) / 1000` (see `scan_base`): `⌈3.322 n⌉`.
+(Before /repo commit 433014e the bias was 678, one bit short for n = 4, 7, 10, …) -/
+def estimateBias : Nat := 999
 
 def decimalBits (n : Nat) : Nat := (n * 3322 + estimateBias) / 1000
 
@@ -118,20 +119,32 @@ def scaleOp (base : Nat) (sum : Int) : Res Int :=
    else if base = 16 then cBin .shl (i64, sum) (i32, 4)
    else .unreachable "unsupported number base") >>= fun v => .ok (i64.wrap v.2)
 
-/-- `parse_int64(n)`: read characters until `n` digits were consumed, skipping separators and the
-radix point; running out of characters fails `CNL_ASSERT(digit)` -/
-def parseInt64 (neg : Bool) (base : Nat) : List Char → Nat → Int → Res (Int × List Char)
-  | cs, 0, acc => .ok (acc, cs)
-  | [], _+1, _ => .unreachable "assert: digit"
-  | c :: cs, n+1, acc =>
-    if c == separator || c == radixChar then parseInt64 neg base cs (n+1) acc
+/-- the characters `parse_int64(n)` consumes: it reads until `n` digits were seen, skipping
+separators and the radix point; returns the digit values and the unread rest.  Running out of
+characters fails `CNL_ASSERT(digit)`; a character outside the digit table is `unreachable`. -/
+def readDigits (base : Nat) : List Char → Nat → Res (List Nat × List Char)
+  | cs, 0 => .ok ([], cs)
+  | [], _+1 => .unreachable "assert: digit"
+  | c :: cs, n+1 =>
+    if c == separator || c == radixChar then readDigits base cs (n+1)
     else
-      match charToDigit neg base c with
+      match digitPos base c with
       | none => .unreachable "invalid digit"
-      | some d =>
-        scaleOp base acc >>= fun s =>
-        cBin .add (i64, s) (i32, d) >>= fun a =>
-        parseInt64 neg base cs n a.2
+      | some d => readDigits base cs n >>= fun r => .ok (d :: r.1, r.2)
+
+/-- `init = scale_op(init) + char_to_digit(digit)` over the digits of one chunk, in `int64`
+(`char_to_digit` of a negative token yields the negated digit) -/
+def accumulate (neg : Bool) (base : Nat) : Int → List Nat → Res Int
+  | acc, [] => .ok acc
+  | acc, d :: ds =>
+    scaleOp base acc >>= fun s =>
+    cBin .add (i64, s) (i32, if neg then -(d : Int) else (d : Int)) >>= fun a =>
+    accumulate neg base a.2 ds
+
+/-- `parse_int64(n)` starting from `init = 0` -/
+def parseInt64 (neg : Bool) (base : Nat) (cs : List Char) (n : Nat) (acc : Int) : Res (Int × List Char) :=
+  readDigits base cs n >>= fun r =>
+  accumulate neg base acc r.1 >>= fun v => .ok (v, r.2)
 
 /-- the factor `make_scale_op_chunk<Sum>(base)` applies: `* 10^18`, `<< 63`, `<< 63`, `<< 60` -/
 def chunkShift (base : Nat) : Nat := if base = 16 then 60 else 63
@@ -260,9 +273,9 @@ def descalePos (sigT : IntTy) (outRadix inRadix : Nat) : Nat → Int → Int →
   | 0, _, _, _ => .diverges
   | fuel+1, sig, exp, ie =>
     if ie ≠ 0 ∨ sig % (outRadix : Int) = 0 then
-      if sig % (outRadix : Int) = 0 then descalePos sigT outRadix inRadix fuel (sig / (outRadix : Int)) (exp + 1) ie
-      else if !(oob sigT outRadix sig) then descalePos sigT outRadix inRadix fuel (sig * inRadix) exp (ie - 1)
-      else descalePos sigT outRadix inRadix fuel sig exp ie
+      if sig % (outRadix : Int) = 0 ∨ oob sigT outRadix sig = true then
+        descalePos sigT outRadix inRadix fuel (sig / (outRadix : Int)) (exp + 1) ie
+      else descalePos sigT outRadix inRadix fuel (sig * inRadix) exp (ie - 1)
     else .ok (sig, exp)
 
 def descaleFuel : Nat := 4000
@@ -370,7 +383,10 @@ def makeFromValue (fn : String) (T : IntTy) (v : Int) : Option (Res Made) :=
   | "elastic_scaled_integer", some r, _ => some (.ok ⟨.sc (.el d (.int narrowest)) 0 2, .builtin r, v⟩)
   | "scaled_integer", _, _ => some (.ok ⟨.sc (.int T) 0 2, .builtin T, v⟩)
   | "static_integer", _, some r => some (.ok ⟨staticIntegerTy d, .builtin r, v⟩)
-  | "static_number", _, some r => some (staticInit d v >>= fun x => .ok ⟨.sc (staticIntegerTy d) 0 2, .builtin r, x⟩)
+  | "static_number", _, some r =>
+    -- the value reaches `static_integer<d>` after integral promotion; the overflow layer only tests a
+    -- source with more digits than `d`
+    some ((if (promote T).digits > d then staticInit d v else .ok v) >>= fun x => .ok ⟨.sc (staticIntegerTy d) 0 2, .builtin r, x⟩)
   | _, _, _ => none
 
 end Cnl.Parse
